@@ -126,6 +126,10 @@ def check_spelling(s: str) -> bool:
     return core(4, 3, -2, False, True, 5, 1, 2, 1, True, 2, spell=spell)
 
 
+class OutOfFuel(Exception):
+    pass
+
+
 def core(ls, a0, a1, ab0, ab1, v0, v1, p1, p2, pb, pn, spell=None):
     global LAST_DIFF, ROOT
     ls = cs(ls, 0, 8)
@@ -151,8 +155,24 @@ def core(ls, a0, a1, ab0, ab1, v0, v1, p1, p2, pb, pn, spell=None):
         row.vals['v'] = v
     params = dict(p1=p1, p2=p2, pb=pb, pn=pn)
     w = interpret.FunctionWalker(m, dict(params))
-    w.accept(ROOT)
+    # fuel: every program of the corpus finishes within a few hundred node visits; a run that does not is reported as
+    # a violation (the interpreter does not terminate where OAL does), not as a hang of the check
+    fuel = [0]
+    plain_accept = w.accept
+
+    def counted(node, **kwargs):
+        fuel[0] += 1
+        if fuel[0] > 5000:
+            raise OutOfFuel()
+        return plain_accept(node, **kwargs)
+    w.accept = counted
+    try:
+        w.accept(ROOT)
+    except OutOfFuel:
+        case(PROG, STYLE, ls)
+        LAST_DIFF = ('the interpreter does not terminate (5000 node visits; the corpus needs < 500)', PROG); return False
     got = w.return_value
+    globals()['LAST_FUEL'] = fuel[0]
     case(PROG, STYLE, ls)
     ref = oalgen.RefEval(pop, dict(params))
     exp = ref.run(BODY)
